@@ -180,7 +180,7 @@ def exactness(tier, seed):
 # blocks of the Cython kernel, extracted mechanically on every run (pyvc/extract.py) and executed from an arbitrary symbolic state
 
 import ast as _ast
-from pyvc.extract import extract as _extract
+from pyvc.extract import extract as _extract, extract_between as _extract_between
 
 
 def _is_insert_if(n):
@@ -190,6 +190,16 @@ def _is_insert_if(n):
 
 def _is_stencil_for(n):
     return isinstance(n, _ast.For) and isinstance(n.target, _ast.Name) and n.target.id == 'dz'
+
+
+def _is_own_atoms_fill(n):
+    """the loop that copies the bin's own atoms: for j in range(c): shortlist[j] = ..."""
+    return (isinstance(n, _ast.For) and any(isinstance(t, _ast.Assign) and isinstance(t.targets[0], _ast.Subscript) and getattr(t.targets[0].value, 'id', '') == 'shortlist'
+                                            for t in n.body))
+
+
+def _is_longlist_assign(n):
+    return isinstance(n, _ast.Assign) and isinstance(n.targets[0], _ast.Name) and n.targets[0].id == 'longlist'
 
 
 def _is_pair_for(n):
@@ -346,7 +356,8 @@ class _BinRecorder(object):
               'negative (z, then y, then x) and inside the grid, never an index outside the grid, and appends their atoms after the bin\'s own atoms; hence every unordered pair of '
               'distinct adjacent bins is visited from exactly one of its two ends', replay=_replay_nlist)
 def stencil_block(E, L):
-    block, info = _extract(L, NLF, 'nlist', _is_stencil_for)
+    # the statements between "copy the bin's own atoms" and "longlist = superlonglist[:c]", whatever their arrangement
+    block, info = _extract_between(L, NLF, 'nlist', _is_own_atoms_fill, _is_longlist_assign)
     E.prove('stencil.block_found', info['last_line'] > info['first_line'])
     x_ = E.int('canary_x')
     E.canary('stencil.canary', x_ == x_ + 1)
